@@ -534,7 +534,8 @@ func checkC16(c *ctx) {
 		writeFile(filepath.Join(pkgdir, cf.name+".go"), src)
 	}
 	outOf := map[string]string{}
-	for _, mask := range []int{1, 3, 5, 7} {
+	for _, mk := range []int{1, 3, 5, 7, 7 | 8} {
+		mask, repeated := mk&7, mk&8 != 0 // (8: the -tags flag is given once per tag instead of once with a comma-separated list)
 		var tags []string
 		if mask&2 != 0 {
 			tags = append(tags, "a")
@@ -543,7 +544,11 @@ func checkC16(c *ctx) {
 			tags = append(tags, "b")
 		}
 		args := []string{"-quiet"}
-		if len(tags) > 0 {
+		if repeated {
+			for _, t := range tags {
+				args = append(args, "-tags", t)
+			}
+		} else if len(tags) > 0 {
 			args = append(args, "-tags", strings.Join(tags, ","))
 		}
 		args = append(args, "./cons")
@@ -639,6 +644,9 @@ func checkC16(c *ctx) {
 		r := prog.NewRand(c.Seed, hashS("C16sel"), hashS(p.Rel))
 		s := &sel{p: p, files: map[string]string{}}
 		args := []string{"-quiet"}
+		if r.Chance(1, 3) {
+			args = append(args, "-genmode", "source-map")
+		}
 		switch {
 		case p.Kind == "static" && r.Chance(1, 2):
 			// a random -file selection, sometimes with an explicit output path
